@@ -142,6 +142,19 @@ def st_law(draw):
         return {'law': 'map_concat_failing', 'strict_errors': True, 'trivial': False,
                 'lhs': dict(b, **{'in': {'op': 'concat', 'how': 'method', 'ins': [S, T]}}),
                 'rhs': {'op': 'concat', 'how': 'method', 'ins': [dict(b, **{'in': S}), dict(b, **{'in': T})]}}
+    if law == 'map_slice' and draw(st.integers(0, 2)) == 0:
+        # a FAILING map distributes over slicing too: an example in front of (or behind) the selection that the
+        # function cannot handle is none of the selection's business, by iteration as well as by index
+        S = draw(gen.st_source(ctx, min_n=2))
+        n0 = ev(S).n
+        a = draw(st.integers(1, n0 - 1))
+        form = {'k': 'slice', 'a': a, 'b': draw(st.sampled_from([None, n0, n0 - 1])), 'c': draw(st.sampled_from([None, 1]))}
+        mm = draw(st.integers(2, 3))
+        b = {'op': 'boom', 'm': mm, 'r': draw(st.integers(0, mm - 1)),
+             'exc': draw(st.sampled_from(['VErrA', 'KeyError', 'ValueError'])), 'fn': draw(st.integers(0, 3))}
+        return {'law': 'map_slice_failing', 'trivial': False,
+                'lhs': {'op': 'slice', 'form': form, 'in': dict(b, **{'in': S})},
+                'rhs': dict(b, **{'in': {'op': 'slice', 'form': form, 'in': S}})}
     plain = law == 'filter_select'
     if plain:
         S = draw(gen.st_source(ctx))
